@@ -175,6 +175,33 @@ def rule_push_order(model):
                           'client tuple is not pushed in the order given '
                           '(the last client must be searched first)',
                           node=n, ctx=fi)
+    # a namespace class derived from TemplateDict that the package itself
+    # puts under a rendering (dtml-with only ...) must be recognised as
+    # "called from a template": the test is subclass-tolerant
+    T = model.cls('_DocumentTemplate', 'TemplateDict')
+    subs = [c for c in model.subclasses(T)
+            if c.module.short != '_DocumentTemplate' or c is not T]
+    mp = fi.params()[2] if len(fi.params()) > 2 else None
+    tests = [x for x in own_nodes(fi.node) if isinstance(x, ast.Compare)
+             and len(x.ops) == 1 and isinstance(x.ops[0], (ast.Is, ast.Eq))
+             and norm(x.comparators[0]).endswith('TemplateDict')
+             and mp is not None and mp in norm(x.left)]
+    tol = [x for x in own_nodes(fi.node) if isinstance(x, ast.Call)
+           and norm(x.func) == 'isinstance' and len(x.args) == 2
+           and norm(x.args[0]) == mp
+           and 'TemplateDict' in norm(x.args[1])]
+    if tests or tol:
+        r.instance(fi.where, 'sub-template test',
+                   'subclass-tolerant' if tol else
+                   f'exact type ({len(subs)} namespace subclass(es) in the '
+                   'package)')
+        if subs and not tol:
+            r.finding(fi.where, tests[0], 'the test that recognises a call '
+                      'from another template compares the exact type, and '
+                      f'the package has a namespace subclass ({subs[0].name}'
+                      '): a sub-template rendered under it builds a fresh '
+                      'namespace -- none of the caller\'s sources is '
+                      'searched', node=tests[0], ctx=fi)
     # whether a client was given is decided by identity with None, never
     # by the client's truth value: the client is an arbitrary application
     # object whose emptiness as a container says nothing about the names
